@@ -154,6 +154,30 @@ def gen_outside(rng):
     return enc_ops(tab, sb, ops), 'outside:' + kind
 
 
+def soak(spec, ctx, cases):
+    """run monitor-only cases; -> [(sig, msg, replay_obj)] for flow.extra_checks"""
+    wd = ctx['wd']
+    cpath = os.path.join(wd, 'cases_soak.txt')
+    opath = os.path.join(wd, 'go_soak.out')
+    vlib.write_cases(cpath, [c[0] for c in cases])
+    rc, out, secs = vlib.run_go(wd, spec.module, spec.pkg, spec.harness, spec.test, cases_path=cpath, out_path=opath,
+                                timeout=spec.go_timeout, extra_overlay=spec.overlay(), extra_env=spec.go_extra_env)
+    obs, mons, info = vlib.parse_out(opath)
+    res = []
+    seen = set()
+    for (i, sig, msg) in sorted(mons, key=lambda t: len(cases[t[0]][0])):
+        if sig in seen:
+            continue
+        seen.add(sig)
+        nums = cases[i][0]
+        res.append((sig, msg, dict(case=['%x' % v for v in nums], explain=spec.explain(nums), note=cases[i][1],
+                                   replay='bin/check %s --replay <file with top-level "case">' % spec.prop)))
+    if rc != 0 and not mons:
+        res.append(('soak-harness-died', 'soak run of the harness did not complete (rc=%s): %s' % (rc, out[-600:]), None))
+    ctx['impl']['info'].setdefault('soak', []).append('%d monitor-only cases, %d bytes of input, %.1fs' % (len(cases), sum(len(c[0]) for c in cases), secs))
+    return res
+
+
 class C17(flow.Spec):
     prop = 'C17'
     props_files = ['theories/Props/C17.v', 'theories/Props/C17_examples.v']
@@ -184,6 +208,17 @@ class C17(flow.Spec):
 
     def classify(self, nums, note):
         return note
+
+    def extra_checks(self, ctx):
+        """soak: long streams on large geometries, real code + reference-terminal monitor only (the list-based
+        executable model would be too slow on these; correspondence is covered by the main stream)"""
+        rng = ctx['rng']
+        n = 600 if ctx['tier'] == 'quick' else 6000
+        cases = []
+        for i in range(n):
+            nums, note = gen_history(rng, ctx['tier'], budget=400_000_000 if i % 3 else 40_000_000, small=False)
+            cases.append((nums, 'soak:' + note))
+        return soak(self, ctx, cases)
 
     def explain(self, nums):
         tab, sb, ops = dec_ops(nums)
